@@ -84,6 +84,12 @@ class Result:
         rec = {"property": self.prop, "kind": kind, "detail": str(detail)[:600]}
         rec.update({k: jsonable(v) for k, v in fields.items()})
         rec["case"] = jsonable(case)
+        try:
+            from . import harness as _H
+            if _H.AMB.on and _H.AMB.last is not None and isinstance(rec["case"], dict):
+                rec["case"]["ambient"] = dict(_H.AMB.last)
+        except Exception:  # noqa
+            pass
         key = (kind,) + tuple(sorted((k, json.dumps(v, sort_keys=True, default=str)) for k, v in rec.items() if k not in ("detail", "case", "property")))
         self.count("violations_raw")
         self.count("viol:" + kind)
